@@ -301,8 +301,10 @@ def evaluate(ctx, deep):
     nmax = 7 if deep else 5
     for n in range(2, nmax + 1):
         if n <= 3:
-            reps = 6 if deep else 3
-        elif n <= 5:
+            reps = 8 if deep else 4
+        elif n == 4:
+            reps = 4 if deep else 2
+        elif n == 5:
             reps = 3 if deep else 1
         else:
             reps = 1
